@@ -1,7 +1,7 @@
 (* Prototype: the C01/C02/C03/C11 oracle: source semantics of the model-parsed scripts vs. the target
    semantics of the instructions read back from the implementation's output text. *)
 From Coq Require Import List String Ascii ZArith NArith Bool.
-From Pory Require Import Lexer Ast Parser Emitter Format Compile Sem2 SemTgt Tr Check.
+From Pory Require Import Lexer Ast Parser Emitter Format Compile Sem2 SemTgt Tr Check EmitProps RenderSim RenderCheck.
 Import ListNotations.
 
 Section O.
@@ -26,7 +26,7 @@ Definition oracle (src out : text) (nseeds fs ft : nat) : option (list (text * o
 
 (* the verified relation checker on the model's own chunk graph of every script *)
 Definition check_script (body : list stmt) : bool :=
-  match work 10000 {| remaining := [mk 0 (-1) body None]; finals := []; counter := 0; brk := []; org := [] |} with
+  match emit_graph body with
   | Emitter.Ok w => chk_block (finals w) (brk w) (org w) 400 body 0 (-1)
   | _ => false
   end.
@@ -44,6 +44,34 @@ Definition checker (src : text) : option (list (text * bool)) :=
   let ts := lex is_letter_hi is_digit_hi is_space_hi src in
   match parse_program autovars switches true (parse_format fc [] 0%Z true) ts with
   | Parser.Ok p => Some (map (fun nb : text * list stmt => let '(n, b) := nb in (n, check_script b)) (scripts_of p))
+  | _ => None
+  end.
+
+(* both validators of theorem emit_script_correct_checked on the model's own graph, order and code of every script *)
+Definition validate_script (mp : option text) (tl : list text) (name : text) (glob optimize : bool) (body : list stmt) : bool :=
+  match emit_graph body with
+  | Emitter.Ok w =>
+      let G := finals w in
+      let order := order_of optimize G in
+      match render_chunks mp tl name glob G order with
+      | Emitter.Ok code => chk_block G (brk w) (org w) 400 body 0 (-1) && wf_render mp name G order code
+      | _ => true      (* label clash: an error is returned, nothing is emitted *)
+      end
+  | _ => false
+  end.
+
+Definition validator (optimize : bool) (src : text) : option (list (text * bool)) :=
+  let ts := lex is_letter_hi is_digit_hi is_space_hi src in
+  match parse_program autovars switches true (parse_format fc [] 0%Z true) ts with
+  | Parser.Ok p =>
+      let tl := map xname (texts p) in
+      Some (flat_map (fun tp => match tp with
+                                | TScript n g b => [(n, validate_script None tl n g optimize b)]
+                                | TMapScripts _ _ plain tables =>
+                                    flat_map (fun m => match msScript m with Some b => [(msName m, validate_script None tl (msName m) false optimize b)] | None => [] end) plain ++
+                                    flat_map (fun tb => flat_map (fun e => match teScript e with Some b => [(teName e, validate_script None tl (teName e) false optimize b)] | None => [] end) (tmEntries tb)) tables
+                                | _ => []
+                                end) (tops p))
   | _ => None
   end.
 
